@@ -24,12 +24,13 @@ pub fn run_fileview(a: &Args) -> Result<(), String> {
         let mut cur: i64 = 0;
         let wl = win.len() as i64;
         for op in ops2.split(';').filter(|s| !s.is_empty()) {
-            let k: i64 = op[1..].parse().unwrap();
+            let k: i128 = op[1..].parse().unwrap();
             match &op[0..1] {
-                "S" => { let got = v.seek(SeekFrom::Start(k as u64)).map_err(|e| e.to_string())?; cur = k.min(wl); if got as i64 != cur { return Err(format!("seek(Start({})) -> {} expected {}", k, got, cur)); } }
-                "C" => { let got = v.seek(SeekFrom::Current(k)).map_err(|e| e.to_string())?; cur = (cur + k).max(0).min(wl); if got as i64 != cur { return Err(format!("seek(Current({})) -> {} expected {}", k, got, cur)); } }
-                "E" => { let got = v.seek(SeekFrom::End(k)).map_err(|e| e.to_string())?; cur = (wl + k.min(0)).max(0).min(wl); if got as i64 != cur { return Err(format!("seek(End({})) -> {} expected {}", k, got, cur)); } }
+                "S" => { let got = v.seek(SeekFrom::Start(k as u64)).map_err(|e| e.to_string())?; cur = (k as u64 as i128).min(wl as i128) as i64; if got as i64 != cur { return Err(format!("seek(Start({})) -> {} expected {}", k, got, cur)); } }
+                "C" => { let got = v.seek(SeekFrom::Current(k as i64)).map_err(|e| e.to_string())?; cur = (cur as i128 + k).max(0).min(wl as i128) as i64; if got as i64 != cur { return Err(format!("seek(Current({})) -> {} expected {}", k, got, cur)); } }
+                "E" => { let got = v.seek(SeekFrom::End(k as i64)).map_err(|e| e.to_string())?; cur = (wl as i128 + k.min(0)).max(0).min(wl as i128) as i64; if got as i64 != cur { return Err(format!("seek(End({})) -> {} expected {}", k, got, cur)); } }
                 "R" => {
+                    let k = k as i64;
                     let mut buf = vec![0u8; k as usize];
                     let got = v.read(&mut buf).map_err(|e| e.to_string())?;
                     let avail = (wl - cur) as usize;
@@ -55,8 +56,8 @@ pub fn gen_fileview(r: &mut Rng) -> String {
     let mut ops = vec![];
     for _ in 0..r.range(1, 5) {
         ops.push(match r.below(4) {
-            0 => format!("S{}", r.below(50)),
-            1 => format!("C{}", r.below(60) as i64 - 30),
+            0 => if r.below(8) == 0 { format!("S{}", u64::MAX - r.below(40)) } else { format!("S{}", r.below(50)) },
+            1 => if r.below(8) == 0 { format!("C{}", i64::MAX - r.below(40) as i64) } else { format!("C{}", r.below(60) as i64 - 30) },
             2 => format!("E{}", r.below(80) as i64 - 60),
             _ => format!("R{}", r.below(20)),
         });
